@@ -18,8 +18,11 @@ class C13(Prop):
     id = "C13"
     title = "gNB-side NGAP messages carry the caller's values and all mandatory IEs"
     lean_module = "Stgutg.Props.C13"
-    gen = ["schema", "registry", "templates"]
-    theorems = ["Stgutg.Props.C13." + t for t in [
+    extra_modules = ["Stgutg.Props.Glue.names", "Stgutg.Props.Glue.tglib_GetNGSetupRequest", "Stgutg.Props.Glue.tglib_GetInitialUEMessage", "Stgutg.Props.Glue.tglib_GetUplinkNASTransport", "Stgutg.Props.Glue.tglib_GetInitialContextSetupResponse", "Stgutg.Props.Glue.tglib_GetInitialContextSetupResponseForServiceRequest", "Stgutg.Props.Glue.tglib_GetPDUSessionResourceSetupResponse", "Stgutg.Props.Glue.tglib_GetPDUSessionResourceSetupResponseForPaging", "Stgutg.Props.Glue.tglib_GetPDUSessionResourceReleaseResponse", "Stgutg.Props.Glue.tglib_GetUEContextReleaseComplete", "Stgutg.Props.Glue.tglib_GetUEContextReleaseRequest", "Stgutg.Props.Glue.tglib_GetHandoverRequired", "Stgutg.Props.Glue.tglib_GetHandoverRequestAcknowledge", "Stgutg.Props.Glue.tglib_GetHandoverNotify", "Stgutg.Props.Glue.tglib_GetPathSwitchRequest"]
+    gen = ["schema", "registry", "templates", "procs"]
+    theorems = ["Stgutg.Props.GluePinned." + t for t in [
+        # the glue functions this property depends on are still the text the models were written from (gen procs)
+        "names", "tglib_GetNGSetupRequest", "tglib_GetInitialUEMessage", "tglib_GetUplinkNASTransport", "tglib_GetInitialContextSetupResponse", "tglib_GetInitialContextSetupResponseForServiceRequest", "tglib_GetPDUSessionResourceSetupResponse", "tglib_GetPDUSessionResourceSetupResponseForPaging", "tglib_GetPDUSessionResourceReleaseResponse", "tglib_GetUEContextReleaseComplete", "tglib_GetUEContextReleaseRequest", "tglib_GetHandoverRequired", "tglib_GetHandoverRequestAcknowledge", "tglib_GetHandoverNotify", "tglib_GetPathSwitchRequest"]] + ["Stgutg.Props.C13." + t for t in [
         "class_table", "mandatory_table", "amf_table", "ran_table", "nas_table", "psi_table", "psilist_table", "name_table",
         "gnb_table", "ip_table", "plmn_table",
         "C13_class", "C13_mandatory", "C13_carries_amf", "C13_carries_ran", "C13_carries_nas", "C13_carries_psi",
